@@ -158,6 +158,7 @@ fn unit_specs_inner(prop: &str, mode: &str, seed: u64, unit: u64, world_arg: Opt
         "c07" => vec![c07_enum_spec(rs, unit)],
         "c06" => vec![c06_enum_spec(seed, unit)],
         "sizes" => vec![sizes_enum_spec(rs, unit)],
+        "sizesf" => vec![sizesf_enum_spec(rs, unit)],
         "c12" => vec![c12_enum_spec(rs, unit)],
         "c11" => vec![c11_enum_spec(rs, unit)],
         _ => {
@@ -227,6 +228,52 @@ pub fn sizes_enum_spec(rs: u64, unit: u64) -> RunSpec {
     caps[a as usize] = cap;
     let len = ops.len() as u32;
     RunSpec { world: world.into(), caps, ops, crash_after: Some(len) }
+}
+
+pub const SIZESF_POS: u64 = 10;
+
+/// Faults at magnitude: a population of exactly n entities, then a fork with a panic from the
+/// k-th Clone::clone and a world drop with a panic from the k-th Drop::drop, k enumerated over
+/// position classes (first, second, around 64, middle, last row; last cell), followed by use.
+pub fn sizesf_enum_spec(rs: u64, unit: u64) -> RunSpec {
+    let sizes: Vec<u32> = sizes_list().into_iter().filter(|n| *n >= 1 && *n <= 2100).collect();
+    let n = sizes[(unit % sizes.len() as u64) as usize];
+    let rest = unit / sizes.len() as u64;
+    let posc = rest % SIZESF_POS;
+    let a = ((rest / SIZESF_POS) % 6) as u8;
+    let ncols: u32 = [1, 2, 3, 5, 2, 1][a as usize];
+    let cells = n * ncols;
+    let mut rng = crate::gen::Rng::new(rs);
+    let pos = |c: u64, rng: &mut crate::gen::Rng| -> u32 {
+        match c {
+            0 => 0,
+            1 => 1,
+            2 => 63,
+            3 => 64,
+            4 => 65,
+            5 => n / 2,
+            6 => n.saturating_sub(1),
+            7 => n,
+            8 => cells.saturating_sub(1),
+            _ => rng.below(cells.max(1) as u64) as u32,
+        }
+        .min(cells.saturating_sub(1))
+    };
+    let k1 = pos(posc, &mut rng);
+    let k2 = pos((posc + 3) % SIZESF_POS, &mut rng);
+    let mut ops = vec![Op::Bulk { a, n, p: rng.next() }];
+    ops.push(Op::CloneWorld { panic_at: Some(k1), probe: None });
+    ops.push(Op::Create { a, lvl: Lvl::World, p: rng.next() });
+    ops.push(Op::Scan { a, path: SPATHS[(rest % 7) as usize], w: None });
+    ops.push(Op::CloneWorld { panic_at: None, probe: None });
+    ops.push(Op::DropWorld { panic_at: Some(k2) });
+    ops.push(Op::Create { a, lvl: Lvl::Arch, p: rng.next() });
+    ops.push(Op::Destroy { h: Sel { class: SEL_LIVE, n: rng.next() as u32 }, typed: false, lvl: Lvl::World, cross: 0, over: false, dp: Some(rng.below(ncols as u64) as u32) });
+    ops.push(Op::Scan { a, path: SPATHS[((rest + 3) % 7) as usize], w: None });
+    let mut caps = vec![0u32; 6];
+    caps[a as usize] = if rng.chance(1, 2) { n } else { 0 };
+    let len = ops.len() as u32;
+    RunSpec { world: "WA".into(), caps, ops, crash_after: Some(len) }
 }
 
 pub const C06_COMBOS: u64 = 7 * 2 * 13;
